@@ -61,6 +61,21 @@ def fileTermOrd (geFirst : Key → Option Nat) (skip : List UInt8 → List UInt8
     (k : Key) : Option (Option Nat) :=
   (fileTermOrdOrNext geFirst skip f k).map Hit.exact?
 
+/-- mirrors: Dictionary::get / do_get on an opened file: block by key, frame, keys decoded,
+`decode_up_to_key`, then the value at the position found (`vals` decodes the value block) -/
+def fileGet {V} (geFirst : Key → Option Nat) (skip : List UInt8 → List UInt8) (vals : List UInt8 → List V)
+    (f : OpenedFile) (k : Key) : Option (Option V) :=
+  match fileBlockForKey geFirst f k with
+  | none => some none
+  | some a =>
+    match readBlocks 1 ((f.data.take a.stop).drop a.start) with
+    | some [RawBlock.plain p] =>
+      some (match scanOrNext (decodeBlockKeys (skip p)) k 0 with
+        | .exact i => (vals p)[i]?
+        | .next _ => none)
+    | some [] => some none
+    | _ => none
+
 def fileOrdToTerm (skip : List UInt8 → List UInt8) (file : List UInt8) (ord : Nat) : Option (Option Key) :=
   openedOrdToTerm skip (openFile file) ord
 
